@@ -10,9 +10,10 @@
    n ≥ 2 = pseudo-random with seed n)  R:<ids> (roots for c05.closure).  Id lists are comma separated, `-` = empty.
 -/
 import DulwichModel.Model.Missing
+import DulwichModel.Model.Negotiate
 import Driver.Util
 namespace DriverC05
-open Dulwich Dulwich.Graph Dulwich.Missing DriverUtil
+open Dulwich Dulwich.Graph Dulwich.Missing Dulwich.Negotiate DriverUtil
 
 def ids? (s : String) : Option (List Nat) :=
   if s = "-" || s = "" then some [] else (s.splitOn ",").mapM nat?
@@ -41,6 +42,23 @@ structure Case where
   tagged : List (Id × Id) := []
   order : Nat := 0
   roots : List Id := []
+  mode : AckMode := .detailed
+  stateless : Bool := false
+  noDone : Bool := false
+  lines : List CLine := []
+
+def cline? (s : String) : Option CLine :=
+  if s = "f" then some .flush
+  else if s = "d" then some .done
+  else if s.front = 'h' then (nat? (s.drop 1).toString).map CLine.have_
+  else none
+
+def clines? (s : String) : Option (List CLine) :=
+  if s = "-" || s = "" then some [] else (s.splitOn ",").mapM cline?
+
+def mode? (s : String) : Option AckMode :=
+  if s = "single" then some .single else if s = "multi" then some .multi
+  else if s = "detailed" then some .detailed else none
 
 def tok (c : Case) (t : String) : Option Case :=
   let body := (t.drop 1).toString
@@ -61,6 +79,10 @@ def tok (c : Case) (t : String) : Option Case :=
   | 'R' => do some { c with roots := ← ids? (body.drop 1).toString }
   | 'X' => do some { c with tagged := ← pairs? (body.drop 1).toString }
   | 'O' => do some { c with order := ← nat? (body.drop 1).toString }
+  | 'M' => do some { c with mode := ← mode? (body.drop 1).toString }
+  | 'L' => do some { c with stateless := ← bool? (body.drop 1).toString }
+  | 'N' => do some { c with noDone := ← bool? (body.drop 1).toString }
+  | 'Q' => do some { c with lines := ← clines? (body.drop 1).toString }
   | _ => none
 
 def parse (args : List String) : Option Case :=
@@ -99,6 +121,26 @@ def showRes (r : Except MErr (List Id)) : String :=
   | .ok l => "ok " ++ showIds l
   | .error e => "err " ++ toString e
 
+def showSLine : SLine → String
+  | .ack x => s!"A{x}" | .ackContinue x => s!"C{x}" | .ackCommon x => s!"M{x}" | .ackReady x => s!"R{x}"
+  | .nak => "N"
+
+def showSLines (l : List SLine) : String :=
+  if l.isEmpty then "-" else ",".intercalate (l.map showSLine)
+
+def showOrdered (l : List Nat) : String :=
+  if l.isEmpty then "-" else ",".intercalate (l.map toString)
+
+def runNego (c : Case) : String :=
+  let s := storeOf c.objs
+  let has : Id → Bool := fun x => (s x).isSome
+  let sat : List Id → Bool := wantsSatisfied s (fuelFor c) c.wants
+  match negotiate c.mode c.stateless has sat c.lines with
+  | .error e => "err " ++ toString e
+  | .ok r =>
+    s!"ok haves={showOrdered r.haves} out={showSLines r.out} done={showBool r.doneReceived} " ++
+    s!"pack={showBool (sendsPack c.mode r c.noDone)} final={showSLines (finalLines c.mode r c.noDone)}"
+
 def handle (op : String) (args : List String) : Option String :=
   match op with
   | "c05.mof" => some <| match parse args with
@@ -115,6 +157,9 @@ def handle (op : String) (args : List String) : Option String :=
   | "c05.welltyped" => some <| match parse args with
     | none => "bad-arg"
     | some c => showBool (wellTypedB c.objs)
+  | "c05.nego" => some <| match parse args with
+    | none => "bad-arg"
+    | some c => runNego c
   | "c05.kind" => some <| match args with
     | [m] => (match nat? m with
       | some m => (match kindOfMode m with | .file => "file" | .dir => "dir" | .gitlink => "gitlink")
